@@ -113,14 +113,17 @@ Liberal(h) == LET S == {i \in 1..Len(h) : h[i].s \in {"run", "amb"}} IN
 
 ShapeOK(o) == /\ o.kind \in {"err", "nogo", "name"}
               /\ o.lenok
-              /\ o.kind # "name" => o.frames = <<>>
+              /\ o.kind # "name" => (o.frames = <<>> /\ ~o.cut)
 
 (* Observed names are read back as sequences of [v |-> value id, trap, unk]; *)
 (* vid[i] is the id of the (relocated) PC value written on line i; `unk`     *)
 (* says that the name cannot show whether the trap adjustment was applied    *)
-(* (a fault on the very first instruction of a function).                    *)
-SameFrames(ofs, xfs, vid) ==
-  /\ Len(ofs) = Len(xfs)
+(* (a fault on the very first instruction of a function).  o.cut: the name   *)
+(* did not fit the size limit and ends in the truncation marker; its         *)
+(* complete frames are then a proper prefix of the expected ones.            *)
+SameFrames(o, xfs, vid) ==
+  LET ofs == o.frames IN
+  /\ IF o.cut THEN Len(ofs) < Len(xfs) ELSE Len(ofs) = Len(xfs)
   /\ \A k \in 1..Len(ofs) : (ofs[k].v = vid[xfs[k].i]) /\ (ofs[k].unk \/ (ofs[k].trap = xfs[k].trap))
 
 (* Repeated sentinel lines.  The parent writes its sentinel once, first; any  *)
@@ -135,10 +138,10 @@ AsText(h) == [i \in 1..Len(h) |-> IF i > 1 /\ h[i].s \in SentS THEN L("text", FA
 Allowed(h, vid, o) ==
   /\ ShapeOK(o)
   /\ IF WellFormed(h)
-     THEN LET x == Expected(h) IN o.kind = x.kind /\ SameFrames(o.frames, x.frames, vid)
+     THEN LET x == Expected(h) IN o.kind = x.kind /\ SameFrames(o, x.frames, vid)
      ELSE IF WellFormed(AsText(h))
      THEN \/ o.kind = "err"
-          \/ LET x == Expected(AsText(h)) IN o.kind = x.kind /\ SameFrames(o.frames, x.frames, vid)
+          \/ LET x == Expected(AsText(h)) IN o.kind = x.kind /\ SameFrames(o, x.frames, vid)
      ELSE o.kind = "name" => LET lib == {vid[i] : i \in Liberal(h)} IN
                              /\ Len(o.frames) <= Cap
                              /\ \A k \in 1..Len(o.frames) : o.frames[k].v \in lib
